@@ -1942,6 +1942,10 @@ class Cluster(object):
                 with host.lock:
                     host.set_up()
                     host._currently_handling_node_up = False
+                # no pool had to be created (no session, or the host is ignored):
+                # the host is up now, listeners must hear about it as well
+                for listener in self.listeners:
+                    listener.on_up(host)
 
         # for testing purposes
         return futures
